@@ -14,6 +14,7 @@ Reading guide
 -/
 import EPV.Lemmas.SchemaTypingDrop
 import EPV.Lemmas.SchemaTypingValue
+import EPV.Lemmas.SchemaTypingLex
 namespace EPV.C20
 open EPV.Xsd EPV.Xsd.Spec EPV.Xsd.Sel
 
@@ -66,6 +67,82 @@ def exTree : Forest Unit :=
           (.elem () "zz" [] .absent .nil .nil)))) .nil
 
 example : (applyFC exSchema none [] exTree).2.length = 3 := by decide
+
+/-! ## attribute typing -/
+
+/-- what the lazily built attribute list must carry for an instance attribute named `n` of an
+element with governing type `ty`: the declared type of the attribute use; `xsi:*` attributes of a
+complex-typed element are `xs:anyAtomicType`; otherwise untyped -/
+def expectedAttrType (s : Schema) (ty : Ty) (n : String) : Option SType :=
+  match specAttrType s ty n with
+  | some t => some t
+  | none => match ty with
+    | .complex id => if (s.ctype? id).isSome && startsWithXsi n then some (.builtin .anyAtomicType) else none
+    | .simple _ => none
+
+/-- **lazy attribute typing = declared attribute types**: for an element typed by the walk
+(`assign` returned a type), the attribute nodes are the instance attributes in order, each with the
+declared type of the attribute use of the element's governing type, followed only by defaulted
+attributes (nodes flagged `defaulted`). -/
+theorem attr_types_eq_declared (s : Schema) (ctx : Option Ty) (n : String) (x : Xsi) (ty : Ty)
+    (d : Option ElemDecl) (ats : List (String × String)) (h : assign s ctx n x = (some ty, d)) :
+    ∃ dflt, attrNodes s ⟨some ty, d⟩ ats =
+        (ats.map fun nv => (⟨nv.1, nv.2, expectedAttrType s ty nv.1, false⟩ : AttrNode)) ++ dflt ∧
+      ∀ a ∈ dflt, a.defaulted = true := by
+  -- the type used by `attributes` is the governing type
+  have hty : attrOwnerType ⟨some ty, d⟩ ats ty = ty := by
+    unfold attrOwnerType
+    cases d with
+    | none => rfl
+    | some dd =>
+      have : dd.type = ty := by
+        unfold assign at h
+        cases x with
+        | unresolvable => simp at h
+        | name t => simp at h
+        | absent =>
+          simp only [Prod.mk.injEq] at h
+          obtain ⟨h1, h2⟩ := h
+          rw [h2] at h1
+          simpa using h1
+      simp [this]
+  simp only [attrNodes, hty]
+  unfold attrNodesFor
+  cases ty with
+  | simple t =>
+    refine ⟨[], ?_, by simp⟩
+    simp [expectedAttrType, specAttrType]
+  | complex id =>
+    simp only
+    cases hct : s.ctype? id with
+    | none =>
+      refine ⟨[], ?_, by simp⟩
+      have : s.ctypes[id]? = none := hct
+      simp [expectedAttrType, specAttrType, this, hct]
+    | some ct =>
+      simp only
+      refine ⟨ct.attrs.filterMap fun d =>
+        match d.default with
+        | some v => if (attrGet ats d.name).isNone then
+            some (⟨d.name, v, some d.type, true⟩ : AttrNode) else none
+        | none => none, ?_, ?_⟩
+      · congr 1
+        apply List.map_congr_left
+        intro nv _
+        have : s.ctypes[id]? = some ct := hct
+        simp only [expectedAttrType, specAttrType, this, hct, Option.bind_some, Option.isSome_some,
+          Bool.true_and]
+        cases ct.attrs.find? (fun d => d.name == nv.1) <;> simp
+      · intro a ha
+        simp only [List.mem_filterMap] at ha
+        obtain ⟨dd, _, hdd⟩ := ha
+        cases hdf : dd.default with
+        | none => simp [hdf] at hdd
+        | some v =>
+          simp only [hdf] at hdd
+          split at hdd
+          · cases hdd; rfl
+          · cases hdd
 
 /-! ## typed values -/
 
@@ -229,6 +306,66 @@ theorem boolean_decoding :
       ["true", "false", "1", "0", " false "].map (fun t => match decode (.builtin .boolean) t with
         | some v => TV.ok v | none => .err) := by decide
 
+theorem decode_atomic : ∀ {T : SType} {b : B} {s : String} {vs : List Atom},
+    atomicBase? T = some b → decode T s = some vs →
+    ∃ a, vs = [a] ∧ xsdLex b (normalize b s) = some a
+  | .builtin b', b, s, vs, hT, h => by
+    simp [atomicBase?] at hT; subst hT
+    simp only [decode, Option.map_eq_some_iff] at h
+    obtain ⟨a, ha, rfl⟩ := h
+    exact ⟨a, rfl, ha⟩
+  | .restr n base f, b, s, vs, hT, h => by
+    simp only [atomicBase?] at hT
+    simp only [decode] at h
+    cases hb : decode base s with
+    | none => rw [hb] at h; simp at h
+    | some ws =>
+      obtain ⟨a, rfl, ha⟩ := decode_atomic hT hb
+      rw [hb] at h
+      simp only at h
+      split at h
+      · cases h; exact ⟨a, rfl, ha⟩
+      · cases h
+  | .list _ _, _, _, _, hT, _ => by simp [atomicBase?] at hT
+  | .union _ _, _, _, _, hT, _ => by simp [atomicBase?] at hT
+
+theorem isList_atomic : ∀ {T : SType} {b : B}, atomicBase? T = some b → T.isList = false
+  | .builtin _, _, _ => rfl
+  | .restr _ base _, _, h => by
+    simp only [atomicBase?] at h; simp only [SType.isList]; exact isList_atomic h
+  | .list _ _, _, h => by simp [atomicBase?] at h
+  | .union _ _, _, h => by simp [atomicBase?] at h
+
+/-- **typed value = specification value** — PARTIAL (F20c; whitespace shape).
+For every atomic type `T` (a builtin or any chain of restrictions) outside the trigger of F20c and
+every text that is at most one token with optional surrounding white space (the shape of every
+valid literal of a non-string type): if the text is a valid literal with value `vs` by the XSD
+lexical mapping (`Spec.decode`, facets included), `get_atomic_sequence` yields exactly `vs` — same
+class, same value.  The full statement (all simple types, all valid texts) is false (F20c/g/h/i)
+and, for multi-token string literals, not proved in Lean (checked by the correspondence). -/
+theorem typed_value_eq_spec_partial (T : SType) (b : B) (hT : atomicBase? T = some b)
+    (hk : derivedViaPrimitive T = false) (s : String) (h1 : (splitWs s).length ≤ 1)
+    (vs : List Atom) (h : decode T s = some vs) : atomicSequence T s = .ok vs := by
+  obtain ⟨a, rfl, ha⟩ := decode_atomic hT h
+  have hpy := pyDecode_of_xsdLex b s h1 a ha
+  have hprotos : T.protos = [b] := by
+    cases T with
+    | builtin b' => simp [atomicBase?] at hT; subst hT; rfl
+    | restr n base f =>
+      simp only [derivedViaPrimitive, itemBase_of_atomic hT] at hk
+      have hbp : b.primitive = b := by simpa using hk
+      rcases protos_atomic hT with h1 | h1
+      · exact h1
+      · rw [h1, hbp]
+    | list n i => simp [atomicBase?] at hT
+    | union n ms => simp [atomicBase?] at hT
+  simp [atomicSequence, hprotos, isList_atomic hT, atomicLoop, tryProto, hpy]
+
+/-- TEST: the hypotheses of `typed_value_eq_spec_partial` hold on a restricted decimal with facets
+and surrounding white space -/
+example : decode (.restr (some "d") (.builtin .decimal) {}) " +01.50 " = some [⟨.decimal, "1.5"⟩] ∧
+    (splitWs " +01.50 ").length ≤ 1 := by decide
+
 /-- **`instance of` is closed under base types** (`element(*, T)` / `attribute(*, T)` for the
 declared type and all its base types): an atom that is an instance of `b` is an instance of every
 type `b` is derived from. -/
@@ -250,10 +387,11 @@ theorem attrNodes_shape (s : Schema) (h : NoAttrDefaults s) (a : Ann) (ats : Lis
     ∃ g : String × String → Option SType,
       attrNodes s a ats = ats.map fun nv => (⟨nv.1, nv.2, g nv, false⟩ : AttrNode) := by
   unfold attrNodes
-  simp only []
   split
   · exact ⟨fun _ => none, rfl⟩
-  · split
+  · unfold attrNodesFor
+    simp only []
+    split
     · exact ⟨fun _ => none, rfl⟩
     · rename_i id
       split
